@@ -4,7 +4,7 @@
     computed from the UNFILTERED set of names in use -- whatever the listing
     configuration --, it was free, and the allocating side holds a committed
     claim on it when the answer is sent). *)
-From MW Require Import Base Store Monad Usage Server Websocket Service Inv Obs StoreFacts AllocFacts ProtoFacts NpFactsA NpFactsB.
+From MW Require Import Base Store Monad Usage Server Websocket Service Inv Obs StoreFacts AllocFacts ProtoFacts NpFactsA NpFactsB AllocDraws.
 
 Theorem C04_allocator :
   forall claimed o n,
@@ -93,6 +93,31 @@ Check C04_free_means_no_row.
 Print Assumptions C04_free_means_no_row.
 
 (** a hole: 1..8 and the decoy "x" are held, 9 is free: the answer is "9" *)
+(** ** the random 4-6 digit path (AllocDraws.v): "every outcome of the random choice" when all of 1..999 are
+    taken: the answer is the decimal rendering of the FIRST of the (up to 1000) draws from [1000, 10^6) that is
+    not in use -- 4 to 6 digits, no leading zero, free; ValueError (known finding KF3) iff all 1000 draws are
+    in use; the model accepts every such oracle *)
+Theorem C04_draws_char : ltac:(let t := type of find_available_draws_char in exact t).
+Proof. exact find_available_draws_char. Qed.
+Check C04_draws_char.
+Print Assumptions C04_draws_char.
+
+Theorem C04_draws_first_free_wins : ltac:(let t := type of draws_first_free_wins in exact t).
+Proof. exact draws_first_free_wins. Qed.
+Check C04_draws_first_free_wins.
+Print Assumptions C04_draws_first_free_wins.
+
+Theorem C04_draws_ok_iff : ltac:(let t := type of draws_ok_iff in exact t).
+Proof. exact draws_ok_iff. Qed.
+Check C04_draws_ok_iff.
+Print Assumptions C04_draws_ok_iff.
+
+Theorem C04_draws_value_error_iff : ltac:(let t := type of draws_value_error_iff in exact t).
+Proof. exact draws_value_error_iff. Qed.
+Check C04_draws_value_error_iff.
+Print Assumptions C04_draws_value_error_iff.
+
+
 Example C04_nonvacuous :
   find_available ["1";"2";"3";"4";"5";"6";"7";"8";"x";"10";"01"]%string (mkAO (Some "9"%string) [])
   = AllocOk "9"%string.
